@@ -363,7 +363,7 @@ def task(arg):
     d = tmpdir()
     st = dict(states=0, loads=0, bisim=0)
     try:
-        depth = 2 if tier == "quick" else 4
+        depth = 2 if tier == "quick" else 5
         try:
             st = explore(kind, args, depth, sub, d)
         except StopExploration:
